@@ -55,8 +55,18 @@ def run(chk):
         if rng.random() < 0.3:
             hist.insert(rng.randrange(len(hist) + 1), probe.replace('seg:2:', 'seg:1:'))      # the same call earlier
         hist = [o for o in hist if not o.startswith('font:0') and not o.startswith('dfont:0')]
-        cases.append('r%d api %s %d %s - %s' % (k, font, opts, src, ' '.join(pre + ['info', probe, 'info'])))
-        cases.append('h%d api %s %d %s - %s' % (k, font, opts, src, ' '.join(pre + ['info'] + hist + [probe, 'info'])))
+        sup = []
+        if rng.random() < 0.4:
+            # echo family: the history ends with the very character the probe starts with / asks about (last-lookup state)
+            rep = S.repertoire(vlib.REPO, font)
+            astral = [c for c in rep if c > 0xFFFF]
+            x = rng.choice(([rng.choice(astral)] if astral else []) + [0x1F600, 0x10FFFF, 0xFFFF, 0x378, rng.choice(rep), rng.choice(rep)] + S.pseudos(vlib.REPO, font)[:2])
+            y = rng.choice(rep)
+            hist.append('seg:1:32:%d:-:-:%s' % (rng.randrange(2), ''.join('%08x' % c for c in (y, x))))
+            a = probe.split(':'); a[2] = '32'; a[6] = ''.join('%08x' % c for c in (x, y, x)); probe = ':'.join(a)
+            sup = ['sup:%x,%x,%x' % (x, y, x)]
+        cases.append('r%d api %s %d %s - %s' % (k, font, opts, src, ' '.join(pre + ['info'] + sup + [probe] + sup + ['info'])))
+        cases.append('h%d api %s %d %s - %s' % (k, font, opts, src, ' '.join(pre + ['info'] + sup + hist + [probe] + sup + ['info'])))
         meta.append((font, opts, len(hist)))
     _, il, _ = vlib.run_pair(None, hexe, cases, timeout=3000)
     classes, dist = set(), {}
@@ -77,11 +87,11 @@ def run(chk):
         if r1[0] != 'face=ok':
             classes.add((font, 'noface')); continue
         pr = [p for p in r1[1] if p.startswith('seg=')]; ph = [p for p in r2[1] if p.startswith('seg=')]
-        i1 = [p for p in r1[1] if p.startswith('info=')]; i2 = [p for p in r2[1] if p.startswith('info=')]
+        i1 = [p for p in r1[1] if p.startswith('info=') or p.startswith('sup=')]; i2 = [p for p in r2[1] if p.startswith('info=') or p.startswith('sup=')]
         classes.add((font, opts, min(nh, 8), pr[-1][:12] if pr else ''))
         if pr and ph and pr[-1] != ph[-1]:
             chk.violation('c08:probe:%s' % ' '.join(hc.split()[2:5] + hc.split()[-2:-1])[:160], 'the same gr_make_seg call returns a different segment after a history of other calls on the face', dict(cases=[rc, hc], got=[pr[-1][:1500], ph[-1][:1500]]))
-        if len(i1) >= 2 and len(i2) >= 2 and not (i1[0] == i1[-1] == i2[0] == i2[-1]):
+        if len(set(p for p in i1 + i2 if p.startswith('info='))) > 1 or len(set(p for p in i1 + i2 if p.startswith('sup='))) > 1:
             chk.violation('c08:report:%s %d' % (font, opts), 'what the face reports about itself (glyphs, features, languages, character support, face info) changed with use', dict(cases=[rc, hc], got=[i1[0][:600], i1[-1][:600], i2[0][:600], i2[-1][:600]]))
     chk.cov.update(evaluations=ng + len(cases), distinct_nontrivial=len(classes), disagreements_checked=ndis, distribution=dist,
                    rule='glyph cache: lookup histories (1-20 gids incl. 0, n-1, n, 65535) before and after a shaping call on lazy / preloaded faces against the model; API: for each of the %d (font, option bits 0..7, '
